@@ -189,6 +189,19 @@ class SourceFile:
             raise Undecided('lost anchor: %r matches %d items in %s' % (path_expr, len(found), self.path))
         return found[0]
 
+    def method_names(self, header):
+        """sorted names of the functions of every impl / trait block with this header (the block's method list)"""
+        names = []
+        hit = False
+        kind = re.match(r'[A-Za-z_]+', header).group(0)
+        for it in self.items:
+            if it.kind in ('impl', 'trait') and it.kind == kind and norm(it.header) == norm(header):
+                hit = True
+                names += [c.name for c in it.children if c.kind == 'fn']
+        if not hit:
+            raise Undecided('lost anchor: %r matches no block in %s' % (header, self.path))
+        return sorted(names)
+
     def line_of(self, item):
         # strip_comments keeps every newline, so offsets in self.src map to the same line as in the raw file
         return self.src.count('\n', 0, item.start) + 1
